@@ -158,58 +158,62 @@ def run(ctx: Ctx) -> None:
     # ------------------------------------------------------------ R-C01.3 output partition of branching blocks
     cb = idx.find_func("compile_bb", "guppylang_internals.compiler.cfg_compiler")
     ctx.saw("functions", cb.qualname)
-    sum_call = next((c for c in calls_in(cb.node) if call_name(c) == "choose_vars_for_tuple_sum"), None)
-    key = f"{cb.qualname}#branch-output-partition"
-    if sum_call is None:
-        ctx.undecided("R-C01.3", key, cb.where, "no choose_vars_for_tuple_sum call")
-    else:
-        ov = next((k.value for k in sum_call.keywords if k.arg == "output_vars"), None)
-        inner = ov.elt if isinstance(ov, ast.ListComp) else None
-        in_sum = inner.generators[0].ifs if isinstance(inner, ast.ListComp) else None
-        # the `outputs = [v for v in first if ...]` that follows in the same branch
-        out_assign = None
-        for n in walk_no_nested(cb.node):
-            if isinstance(n, ast.Assign) and dotted(n.targets[0]) == "outputs" and isinstance(n.value, ast.ListComp) and n.lineno > sum_call.lineno:
-                out_assign = n
-                break
-        if not in_sum or out_assign is None or not out_assign.value.generators[0].ifs:
-            ctx.undecided("R-C01.3", key, cb.where, "partition filters not found in comprehension form")
+    # R-C01.6 (c01_outputs): compile_bb, sort_vars and compare_var interpreted as a whole -- partition, output order and input order.
+    # The shape rules below are the fallback for a tree where sort_vars cannot be interpreted.
+    from . import c01_outputs
+    if not c01_outputs.run(ctx):
+        sum_call = next((c for c in calls_in(cb.node) if call_name(c) == "choose_vars_for_tuple_sum"), None)
+        key = f"{cb.qualname}#branch-output-partition"
+        if sum_call is None:
+            ctx.undecided("R-C01.3", key, cb.where, "no choose_vars_for_tuple_sum call")
         else:
-            tb = idx.find_class("TypeBase", "guppylang_internals.tys.ty")
-            ev = PyEval(idx, "guppylang_internals.compiler.cfg_compiler")
-            v1 = dotted(inner.generators[0].target)
-            v2 = dotted(out_assign.value.generators[0].target)
-            cmpv = idx.find_func("compare_var", "guppylang_internals.compiler.cfg_compiler")
-            key_uses = "droppable" in ast.unparse(cmpv.node) and "not p1.ty.droppable" in ast.unparse(cmpv.node)
-            bad = []
-            und = None
-            for c, d in itertools.product((False, True), repeat=2):
-                tok = Tok("v", ty=Tok("ty", copyable=c, droppable=d, __classes__=[tb]))
-                try:
-                    a = all(ev.truth(ev.ev(t, {v1: tok})) for t in in_sum)
-                    b = all(ev.truth(ev.ev(t, {v2: tok})) for t in out_assign.value.generators[0].ifs)
-                except (Unsupported, Raised) as e:
-                    und = str(e)
+            ov = next((k.value for k in sum_call.keywords if k.arg == "output_vars"), None)
+            inner = ov.elt if isinstance(ov, ast.ListComp) else None
+            in_sum = inner.generators[0].ifs if isinstance(inner, ast.ListComp) else None
+            # the `outputs = [v for v in first if ...]` that follows in the same branch
+            out_assign = None
+            for n in walk_no_nested(cb.node):
+                if isinstance(n, ast.Assign) and dotted(n.targets[0]) == "outputs" and isinstance(n.value, ast.ListComp) and n.lineno > sum_call.lineno:
+                    out_assign = n
                     break
-                if a == b or a != d:
-                    bad.append({"copyable": c, "droppable": d, "goes_into_branch_sum": a, "goes_into_regular_outputs": b})
-            if und:
-                ctx.undecided("R-C01.3", key, cb.where, und)
+            if not in_sum or out_assign is None or not out_assign.value.generators[0].ifs:
+                ctx.undecided("R-C01.3", key, cb.where, "partition filters not found in comprehension form")
             else:
-                ctx.check(not bad and key_uses, "R-C01.3", key, f"{cb.module.rel}:{sum_call.lineno}",
-                          {"branch_sum_filter": [ast.unparse(t) for t in in_sum], "regular_output_filter": [ast.unparse(t) for t in out_assign.value.generators[0].ifs],
-                           "sort_key_uses_droppable": key_uses, "counterexamples": bad},
-                          "when the successors of a branching block need different variables, a variable of some copy/drop class is put into "
-                          "neither (or both) of the branch sum and the regular outputs: the successor block receives the wrong number of "
-                          "values (invalid HUGR) or a value is lost")
+                tb = idx.find_class("TypeBase", "guppylang_internals.tys.ty")
+                ev = PyEval(idx, "guppylang_internals.compiler.cfg_compiler")
+                v1 = dotted(inner.generators[0].target)
+                v2 = dotted(out_assign.value.generators[0].target)
+                cmpv = idx.find_func("compare_var", "guppylang_internals.compiler.cfg_compiler")
+                key_uses = "droppable" in ast.unparse(cmpv.node) and "not p1.ty.droppable" in ast.unparse(cmpv.node)
+                bad = []
+                und = None
+                for c, d in itertools.product((False, True), repeat=2):
+                    tok = Tok("v", ty=Tok("ty", copyable=c, droppable=d, __classes__=[tb]))
+                    try:
+                        a = all(ev.truth(ev.ev(t, {v1: tok})) for t in in_sum)
+                        b = all(ev.truth(ev.ev(t, {v2: tok})) for t in out_assign.value.generators[0].ifs)
+                    except (Unsupported, Raised) as e:
+                        und = str(e)
+                        break
+                    if a == b or a != d:
+                        bad.append({"copyable": c, "droppable": d, "goes_into_branch_sum": a, "goes_into_regular_outputs": b})
+                if und:
+                    ctx.undecided("R-C01.3", key, cb.where, und)
+                else:
+                    ctx.check(not bad and key_uses, "R-C01.3", key, f"{cb.module.rel}:{sum_call.lineno}",
+                              {"branch_sum_filter": [ast.unparse(t) for t in in_sum], "regular_output_filter": [ast.unparse(t) for t in out_assign.value.generators[0].ifs],
+                               "sort_key_uses_droppable": key_uses, "counterexamples": bad},
+                              "when the successors of a branching block need different variables, a variable of some copy/drop class is put into "
+                              "neither (or both) of the branch sum and the regular outputs: the successor block receives the wrong number of "
+                              "values (invalid HUGR) or a value is lost")
+        # inputs of non-entry blocks and outputs of non-exit jumps use the same order
+        txt = ast.unparse(cb.node)
+        ok = "inputs = sort_vars(bb.sig.input_row)" in txt and "outputs = sort_vars(outputs)" in txt
+        ctx.check(ok, "R-C01.3", f"{cb.qualname}#same-order-for-outputs-and-successor-inputs", cb.where, {},
+                  "a block outputs its variables in another order than its successor expects them")
     cvs = idx.find_func("choose_vars_for_tuple_sum", "guppylang_internals.compiler.cfg_compiler")
     ok = any(isinstance(n, ast.Assert) and "droppable" in ast.unparse(n.test) for n in walk_no_nested(cvs.node))
     ctx.check(ok, "R-C01.3", f"{cvs.qualname}#only-droppable-in-branch-sum", cvs.where, {}, "non-droppable values may be put into a branch sum where the untaken variants discard them")
-    # inputs of non-entry blocks and outputs of non-exit jumps use the same order
-    txt = ast.unparse(cb.node)
-    ok = "inputs = sort_vars(bb.sig.input_row)" in txt and "outputs = sort_vars(outputs)" in txt
-    ctx.check(ok, "R-C01.3", f"{cb.qualname}#same-order-for-outputs-and-successor-inputs", cb.where, {},
-              "a block outputs its variables in another order than its successor expects them")
 
     # ------------------------------------------------------------ R-C01.4 return variables
     from . import c01_retvars
@@ -218,10 +222,6 @@ def run(ctx: Ctx) -> None:
     # ------------------------------------------------------------ R-C01.5 struct/tuple places
     from . import c01_places
     c01_places.run(ctx)
-
-    # ------------------------------------------------------------ R-C01.6 block outputs vs successor inputs
-    from . import c01_outputs
-    c01_outputs.run(ctx)
 
     # ------------------------------------------------------------ R-C01.7 the branch sum feeds every live place in once
     from . import c01_sum
